@@ -207,6 +207,9 @@ class C01(Property):
                     out.append([{"part": "dev", "shape": shape, "k": 1, "module": m, "tol": t, "cff": v,
                                  "opt": o}])
             out.append([{"part": "width", "module": m, "tol": t, "cff": v}])
+            # explicit (fractional) default / nominal widths in fontinfo
+            out.append([{"part": "width", "module": m, "tol": t, "cff": v, "widths_info": [499.5, 600.5]}])
+            out.append([{"part": "width", "module": m, "tol": t, "cff": v, "widths_info": [500, 0]}])
         for shape in b["dev_pairs"]:
             for t in TOLS:
                 for v in (1, 2):
@@ -225,6 +228,9 @@ class C01(Property):
         c = h[0]
         glyphs = self.make_glyphs(c)
         spec = {"glyphs": glyphs, "order": list(glyphs)}
+        if c.get("widths_info"):
+            spec["info"] = {"postscriptDefaultWidthX": c["widths_info"][0],
+                            "postscriptNominalWidthX": c["widths_info"][1]}
         font = B.build_font(spec, c["module"])
         opts = {"optimizeCFF": c.get("opt", 1), "cffVersion": c["cff"]}
         if c["tol"] is not None:
@@ -249,6 +255,13 @@ class C01(Property):
                 viols.append(violation("outline-mismatch", dict(feat, what=bad["what"]), glyph=name,
                                        spec=_short_spec(glyphs, name), module=c["module"], **bad))
             adv = hmtx[name][0]
+            if c["cff"] == 1:
+                # the advance the CFF 1 charstring itself carries (decoded by fontTools while drawing)
+                cs_w = tt["CFF "].cff[0].CharStrings[name].width
+                if cs_w != R.otround(g["width"]) and len(viols) < 5:
+                    viols.append(violation("charstring-advance-mismatch", dict(feat), glyph=name, width=g["width"],
+                                           expected=R.otround(g["width"]), observed=cs_w, module=c["module"],
+                                           widths_info=c.get("widths_info")))
             if adv != R.otround(g["width"]) and len(viols) < 5:
                 viols.append(violation("advance-mismatch", dict(feat), glyph=name, width=g["width"],
                                        expected=R.otround(g["width"]), observed=adv, module=c["module"]))
